@@ -54,7 +54,7 @@ package message
 //@ assignset msgRead = m.isEOM, m.finished, bufConsumed, @msgBuf, @ifaceRead, @strmRecv(m.stream)
 //@ assignset msgWrite = bufConsumed, @msgBuf, @ifaceWrite, @strmSend(m.stream)
 
-//@ func (*Message).ensureData
+//@ func (*Message).ensureData (m, ctx, needed) (err)
 //@   props C01 C02 C13 C14
 //@   requires inv: [typeinv] msgInv(m)
 //@   assigns @msgRead
@@ -65,7 +65,11 @@ package message
 //@   loop 1 invariant buf_own: ref(m.buffer.buf) == old(ref(m.buffer.buf)) || fresh(m.buffer.buf)
 //@   loop 1 invariant io_strict: rdTotal == old(rdTotal) ==> viewLen(m) == old(viewLen(m))
 //@   loop 1 invariant consumes_nothing: bufConsumed == old(bufConsumed)
+//@   loop 1 invariant frame_paid: rdTotal == old(rdTotal) && viewLen(m) == old(viewLen(m)) && m.isEOM == old(m.isEOM) && m.finished == old(m.finished) || viewLen(m) - old(viewLen(m)) + 5 <= rdTotal - old(rdTotal)
 //@   ensures enough: err == nil ==> viewLen(m) >= needed
+//@   ensures frame_paid: [C13] (err == nil || err == io.EOF) && old(viewLen(m)) < needed && !old(m.isEOM) ==> viewLen(m) - old(viewLen(m)) + 5 <= rdTotal - old(rdTotal)
+//@   ensures eof_flagged: [C13] err == io.EOF ==> m.finished
+//@   ensures eom_sticky: [C13] old(viewLen(m)) >= needed || old(m.isEOM) ==> m.isEOM == old(m.isEOM)
 //@   ensures view_prefix: [C14 C01] forall i :: 0 <= i && i < old(viewLen(m)) ==> viewAt(m, i) == old(viewAt(m, i))
 //@   ensures no_io_if_buffered: [C14] old(viewLen(m)) >= needed || old(m.isEOM) ==> rdTotal == old(rdTotal) && viewLen(m) == old(viewLen(m))
 //@   ensures buffered_ok: old(viewLen(m)) >= needed ==> err == nil
@@ -297,12 +301,19 @@ package message
 //@   ensures inv_kept: msgInv(m)
 //@   ensures buf_own: ref(m.buffer.buf) == old(ref(m.buffer.buf)) || fresh(m.buffer.buf)
 
-//@ func (*Message).SkipString
+//@ func (*Message).SkipString (m, ctx) (err)
 //@   props C13 C08
 //@   requires inv: [typeinv] msgInv(m)
 //@   assigns @msgRead
+//@   ensures progress: [C13] err == nil && (old(strmEncrypting) || !(old(m.isEOM) && old(viewLen(m)) == 0)) ==> rdTotal - viewLen(m) >= old(rdTotal) - old(viewLen(m)) + 1
+//@   ensures at_eom1: [C13] err == nil && !old(strmEncrypting) && old(m.isEOM) && old(viewLen(m)) == 0 ==> m.finished
+//@   ensures at_eom2: [C13] err == nil && !old(strmEncrypting) && old(m.isEOM) && old(viewLen(m)) == 0 ==> viewLen(m) == 0
+//@   ensures at_eom3: [C13] err == nil && !old(strmEncrypting) && old(m.isEOM) && old(viewLen(m)) == 0 ==> rdTotal == old(rdTotal)
 //@   loop 1 invariant inv: msgInv(m) && m.buffer == old(m.buffer) && m.stream == old(m.stream) && rdTotal >= old(rdTotal)
 //@   loop 1 invariant buf_own: ref(m.buffer.buf) == old(ref(m.buffer.buf)) || fresh(m.buffer.buf)
+//@   loop 1 invariant paid: [C13] rdTotal - viewLen(m) >= old(rdTotal) - old(viewLen(m))
+//@   loop 1 invariant eom_stays: [C13] old(m.isEOM) ==> m.isEOM && rdTotal == old(rdTotal) && viewLen(m) <= old(viewLen(m))
+//@   loop 1 invariant idle_or_paid: [C13] rdTotal == old(rdTotal) && viewLen(m) == old(viewLen(m)) && m.isEOM == old(m.isEOM) && m.finished == old(m.finished) || rdTotal - viewLen(m) >= old(rdTotal) - old(viewLen(m)) + 1
 //@   ensures inv_kept: msgInv(m)
 //@   ensures buf_own: ref(m.buffer.buf) == old(ref(m.buffer.buf)) || fresh(m.buffer.buf)
 
@@ -443,6 +454,7 @@ package message
 //@   requires inv: [typeinv] msgInv(m)
 //@   assigns @msgRead, strmEncrypting, strmSaved, @strmToggle(m.stream)
 //@   ensures restored: typeis(m.stream, "*stream.Stream") ==> strmEncrypting == old(strmEncrypting)
+//@   ensures proportional: [C13] err == nil ==> len(result) + viewLen(m) <= old(viewLen(m)) + (rdTotal - old(rdTotal))
 //@   ensures inv_kept: msgInv(m)
 
 //@ pred wantPrivate(opts) = bit(opts, 5) && !bit(opts, 1)
@@ -462,3 +474,52 @@ package message
 //@   loop 1 invariant inv: encInv(m) && m.buffer == old(m.buffer) && m.stream == old(m.stream) && strmEncrypting == old(strmEncrypting) && (ref(m.buffer.buf) == old(ref(m.buffer.buf)) || fresh(m.buffer.buf))
 //@   ensures restored: strmEncrypting == old(strmEncrypting)
 //@   ensures inv_kept: encInv(m)
+
+// ---- bounded ClassAd reader (C13): one byte budget across the whole ad, secret branch included ----
+//@ func getClassAdFromMessageWithMaxSize (m, maxSize, ctx) (result, err)
+//@   props C13
+//@   requires inv: [typeinv] msgInv(m)
+//@   loop 1 invariant budget: msgInv(m) && 0 <= totalBytesRead && (maxSize > 0 ==> totalBytesRead <= maxSize + 1)
+//@   assert before call Message).GetStringWithMaxSize #1 budget_expr: maxSize > 0 && 0 < arg2 && arg2 == maxSize - totalBytesRead
+//@   assert before call Message).getSecretStringWithMaxSize #1 budget_secret: maxSize > 0 && 0 < arg2 && arg2 == maxSize - totalBytesRead
+//@   assert before call Message).GetStringWithMaxSize #2 budget_mytype: maxSize > 0 && 0 < arg2 && arg2 == maxSize - totalBytesRead
+//@   assert before call Message).GetStringWithMaxSize #3 budget_targettype: maxSize > 0 && 0 < arg2 && arg2 == maxSize - totalBytesRead
+//@   assert before call Message).GetString #1 uncapped_only: maxSize <= 0
+//@   assert before call Message).GetString #2 uncapped_only: maxSize <= 0
+//@   assert before call Message).GetString #3 uncapped_only: maxSize <= 0
+//@   assert before call Message).getSecretString #1 uncapped_only: maxSize <= 0
+//@   assert after call Message).GetStringWithMaxSize #1 counted: true
+
+//@ func parseAndInsertExpression (ad, exprStr) (err)
+//@   props C13 C08
+//@   assigns nothing
+
+//@ func tryInsertLiteral (ad, attr, valueStr) (err)
+//@   props C13 C08
+//@   assigns nothing
+
+//@ func decodeOldClassAdString (inner) (result, ok)
+//@   props C13 C08
+//@   assigns nothing
+
+//@ func (*Message).getSecretStringWithMaxSize (m, ctx, maxSize) (result, err)
+//@   props C09 C13
+//@   requires inv: [typeinv] msgInv(m)
+//@   assigns @msgRead, strmEncrypting, strmSaved, @strmToggle(m.stream)
+//@   ensures restored: typeis(m.stream, "*stream.Stream") ==> strmEncrypting == old(strmEncrypting)
+//@   ensures cap_result: [C13] len(result) <= max(maxSize, 0)
+//@   ensures inv_kept: msgInv(m)
+
+// ---- raw and skipping ClassAd readers (C13): every loop iteration is paid for by at least one received byte ----
+//@ func (*Message).GetClassAdRawBody (m, ctx, numExprs) (result, err)
+//@   props C13 C08
+//@   requires inv: [typeinv] msgInv(m)
+//@   loop 1 invariant inv: msgInv(m)
+//@   loop 1 invariant progress: [C13] 0 <= i && i <= (rdTotal - viewLen(m)) - (old(rdTotal) - old(viewLen(m)))
+
+//@ func (*Message).SkipClassAdRaw (m, ctx) (err)
+//@   props C13 C08
+//@   requires inv: [typeinv] msgInv(m)
+//@   let P0 = old(rdTotal) - old(viewLen(m))
+//@   loop 1 invariant inv: msgInv(m)
+//@   loop 1 invariant progress: [C13] 0 <= i && (m.finished && viewLen(m) == 0 ==> i <= (rdTotal - viewLen(m)) - P0 + 1) && (!(m.finished && viewLen(m) == 0) ==> i <= (rdTotal - viewLen(m)) - P0)
